@@ -53,20 +53,31 @@ XSI = 'http://www.w3.org/2001/XMLSchema-instance'
 TNS = 'urn:t'
 NS = {'': TNS, 't': TNS, 'xs': XSD, 'xsi': XSI}
 
-BUILTIN = {'short', 'int', 'long', 'integer', 'decimal', 'string', 'date', 'boolean',
-           'anyAtomicType', 'anySimpleType', 'anyType'}
+BUILTIN = {'short', 'int', 'long', 'integer', 'decimal', 'string', 'date', 'boolean', 'unsignedLong',
+           'nonNegativeInteger', 'anyAtomicType', 'anySimpleType', 'anyType'}
+ALIAS = {'bint': 'integer', 'bdec': 'decimal'}       # spec names of built-ins whose values are digit sequences
 QUERY = ['short', 'int', 'long', 'integer', 'decimal', 'string', 'date', 'boolean', 'small', 'ilist',
-         'u', 'ud', 'v', 'sc', 'grp', 'anyAtomicType', 'anySimpleType', 'anyType']
+         'u', 'ud', 'v', 'sc', 'grp', 'unsignedLong', 'nonNegativeInteger', 'anyAtomicType', 'anySimpleType', 'anyType']
+# the built-in atomic queries asked with ONE parsed expression over all the children of the root
+MULTI_QUERY = ['int', 'long', 'integer', 'decimal', 'string', 'date', 'boolean', 'anyAtomicType']
 ELEM_KINDS = ('ea', 'eb', 'em')
 TYPED_KINDS = ('ea', 'eb', 'em', 'xa', 'xc')
 
 
 def qn(t: str) -> str:
+    t = ALIAS.get(t, t)
     return ('xs:' if t in BUILTIN else 't:') + t
 
 
-def kd(ty, mn=1, mx=1, nil=False, dv=False, sg=False):
-    return tla.FrozenDict(ty=ty, mn=mn, mx=mx, nil=nil, dv=dv, sg=sg)
+def tname(ty: str) -> str:
+    """abstract type of the spec -> what type_tag() gives for it: anonymous types have no name"""
+    if ty == 'root' or ty.startswith('~'):
+        return 'anon'
+    return ALIAS.get(ty, ty)
+
+
+def kd(ty, mn=1, mx=1, nil=False, dv=False, sg=False, anon=False):
+    return tla.FrozenDict(ty=ty, mn=mn, mx=mx, nil=nil, dv=dv, sg=sg, anon=anon)
 
 
 def ad(nm, ty, use='opt'):
@@ -102,6 +113,14 @@ WALK = {
         # the global type v is defined differently by S and S' (restriction of the type of kid 1); xsi:type="v"
         ('vtype', dict(KidMenu={kd('int', 1, 2), kd('decimal', 0, 1)}, AttrMenu=set()),
          dict(MinKids=1, MaxKids=1, MaxAtts=0, LexCap=1, XsiOn=False, VOn=True, RetypeTo={'string', 'decimal'})),
+        # anonymous local simple types (type_name None) with different bases next to each other
+        ('anon', dict(KidMenu={kd('int', 1, 1, anon=True), kd('string', 1, 1, anon=True), kd('decimal', 0, 1, anon=True),
+                               kd('int', 1, 2), kd('u', 1, 2)}, AttrMenu=set()),
+         dict(MinKids=2, MaxKids=2, MaxAtts=0, LexCap=1, XsiOn=False, VOn=False, RetypeTo={'string'})),
+        # values that do not fit a double: xs:long / xs:unsignedLong / xs:integer / xs:decimal beyond 2^53
+        ('big', dict(KidMenu={kd('long', 1, 1), kd('unsignedLong', 1, 1), kd('bint', 1, 1), kd('bdec', 1, 1)},
+                     AttrMenu=set()),
+         dict(MinKids=2, MaxKids=2, MaxAtts=0, LexCap=2, XsiOn=False, VOn=False, RetypeTo={'bint'})),
     ],
     'thorough': [
         ('sg', dict(KidMenu={kd(t, mn, 2, sg=True) for t in ['decimal', 'integer', 'int'] for mn in (0, 1)} | {kd('string', 1, 1)},
@@ -109,6 +128,12 @@ WALK = {
          dict(MinKids=1, MaxKids=2, MaxAtts=0, LexCap=2, XsiOn=False, VOn=False, RetypeTo={'integer', 'decimal'})),
         ('vtype', dict(KidMenu={kd(t, 1, 2) for t in ['int', 'integer', 'decimal', 'string']} | {kd('boolean', 0, 1)}, AttrMenu=set()),
          dict(MinKids=1, MaxKids=2, MaxAtts=0, LexCap=2, XsiOn=False, VOn=True, RetypeTo={'string', 'decimal', 'integer'})),
+        ('anon', dict(KidMenu={kd(t, mn, 1, anon=True) for t in ['int', 'string', 'decimal', 'integer'] for mn in (0, 1)}
+                      | {kd('int', 1, 2), kd('u', 1, 2), kd('string', 0, 1, True, True, anon=True)}, AttrMenu=set()),
+         dict(MinKids=2, MaxKids=3, MaxAtts=0, LexCap=1, XsiOn=False, VOn=False, RetypeTo={'string', 'decimal'})),
+        ('big', dict(KidMenu={kd(t, mn, 2) for t in ['long', 'unsignedLong', 'bint', 'bdec'] for mn in (0, 1)},
+                     AttrMenu={ad('c', 'bint'), ad('a', 'long', 'dflt')}),
+         dict(MinKids=2, MaxKids=2, MaxAtts=1, LexCap=2, XsiOn=False, VOn=False, RetypeTo={'bint', 'bdec'})),
         ('types2', dict(KidMenu={kd(t, 1, 1) for t in SIMPLE9 + ['sc', 'grp']}, AttrMenu={ad('a', 'int')}),
          dict(MinKids=2, MaxKids=2, MaxAtts=1, LexCap=1, XsiOn=False, VOn=False, RetypeTo={'string'})),
         ('types', dict(KidMenu={kd(t, 0, 2) for t in SIMPLE9 + ['sc', 'grp']}, AttrMenu=set()),
@@ -217,12 +242,17 @@ def xsd_text(S, sdef) -> str:
         if d['sg']:
             out.append(f'<xs:element ref="t:{KIDNAME[pos]}" minOccurs="{d["mn"]}" maxOccurs="{d["mx"]}"/>')
             continue
-        a = f'<xs:element name="{KIDNAME[pos]}" type="{qn(d["ty"])}" minOccurs="{d["mn"]}" maxOccurs="{d["mx"]}"'
+        a = f'<xs:element name="{KIDNAME[pos]}" minOccurs="{d["mn"]}" maxOccurs="{d["mx"]}"'
+        if not d['anon']:
+            a += f' type="{qn(d["ty"])}"'
         if d['nil']:
             a += ' nillable="true"'
         if d['dv']:
             a += f' default="{lex(sdef["kids"][pos - 1])}"'
-        out.append(a + '/>')
+        if d['anon']:      # an anonymous local type: restriction (no facet) of ty
+            out.append(a + f'><xs:simpleType><xs:restriction base="{qn(d["ty"])}"/></xs:simpleType></xs:element>')
+        else:
+            out.append(a + '/>')
     out.append('</xs:sequence>')
     adef = dict(sdef['atts'])
     for d in sorted(S['atts'], key=lambda x: x['nm']):
@@ -417,7 +447,8 @@ def select_api(root, expr: str, pv: str, proxy):
 
 def value_classes(version: str) -> dict:
     import elementpath.datatypes as dt
-    return {'int': dt.Int, 'integer': dt.Integer, 'decimal': Decimal, 'string': str, 'boolean': bool,
+    return {'long': dt.Long, 'unsignedLong': dt.UnsignedLong, 'bigInteger': dt.Integer, 'bigDecimal': Decimal,
+            'int': dt.Int, 'integer': dt.Integer, 'decimal': Decimal, 'string': str, 'boolean': bool,
             'date': dt.Date10 if version == '1.0' else dt.Date, 'untypedAtomic': dt.UntypedAtomic}
 
 
@@ -441,10 +472,16 @@ def tag_of(v) -> str:
     return type(v).__name__
 
 
+def big_decimal(b) -> Decimal:
+    return Decimal(lex(b['ip']) + ('.' + lex(b['fp']) if b['fp'] else ''))
+
+
 def same_value(exp, v) -> bool:
     """exp: abstract atomic value of the spec; v: a Python value (elementpath or xmlschema)"""
     t = exp['t']
     try:
+        if 'ip' in exp:      # a big number of the spec: digit sequences, compared exactly
+            return isinstance(v, (int, Decimal)) and not isinstance(v, bool) and Decimal(v) == big_decimal(exp)
         if t in ('int', 'integer'):
             return isinstance(v, (int, Decimal)) and not isinstance(v, bool) and v == exp['i']
         if t == 'decimal':
@@ -488,7 +525,7 @@ def probe_outcome(want, obs, classes) -> str | None:
 def type_tag(name) -> str:
     """node.type_name -> abstract type name"""
     if name is None:
-        return 'root'                      # the anonymous complex type of the global element
+        return 'anon'                      # anonymous types (the complex type of the global element, local simple types)
     if name.startswith('{' + XSD + '}'):
         return name[len(XSD) + 2:]
     if name.startswith('{' + TNS + '}'):
@@ -567,7 +604,7 @@ def oracle_check(vec, S, xsd: str, version: str, doc: Doc, msgs: list) -> None:
         tv = a['tv']
         if tv == NOVALUE or a['nilled'] or a['ty'] in ('-',):
             continue
-        ty = 'decimal' if a['ty'] == 'sc' else a['ty']
+        ty = 'decimal' if a['ty'] == 'sc' else a['ty'][1:] if a['ty'].startswith('~') else ALIAS.get(a['ty'], a['ty'])
         xt = sch.maps.types['{%s}%s' % (XSD if ty in BUILTIN else TNS, ty)]
         # the text the processor decodes: content, or the default the spec says applies
         if nd['s'] == 'kid' and not nd['lx'] and flag_of(vec, n) == 'default':
@@ -582,6 +619,12 @@ def oracle_check(vec, S, xsd: str, version: str, doc: Doc, msgs: list) -> None:
         dec = dec if isinstance(dec, list) else [dec]
         if len(dec) != len(tv) or not all(same_value(e, v) for e, v in zip(tv, dec)):
             msgs.append(f'spec TypedValue({ty}, {text!r}) = {tv} but xmlschema decodes {dec!r}')
+        # the order of the big points: python's exact Decimal comparison must agree with BigCmp of the spec
+        import operator
+        ops = dict(eq=operator.eq, ne=operator.ne, lt=operator.lt, le=operator.le, gt=operator.gt, ge=operator.ge)
+        for K, op, holds in vec['cmplit'][n - 1]:
+            if ops[op](big_decimal(tv[0]), Decimal(lex(K))) != holds:
+                msgs.append(f'spec says {lex(nd["lx"])} {op} {lex(K)} is {holds}')
 
 
 # ---------------------------------------------------------------------------------------
@@ -619,9 +662,9 @@ def check_fresh(vec, slot, S, xsd, version, lib, pv, doc: Doc, fails: list, stat
             continue
         tn, nilled, tv = observe_node(node)
         stats['evaluations'] += 2
-        if tn != a['ty']:
+        if tn != tname(a['ty']):
             fails.append((dict(base, probe='type_name', observed_type=str(tn), **node_features(vec, n)),
-                          dict(case0, path=path, probe='type_name'), a['ty'], tn))
+                          dict(case0, path=path, probe='type_name'), tname(a['ty']), tn))
         if nd['k'] in ELEM_KINDS and nilled != a['nilled']:
             fails.append((dict(base, probe='nilled', **node_features(vec, n)), dict(case0, path=path, probe='nilled'),
                           a['nilled'], nilled))
@@ -662,7 +705,7 @@ def check_fresh(vec, slot, S, xsd, version, lib, pv, doc: Doc, fails: list, stat
                                    in_chain=want, **node_features(vec, n)),
                               dict(case0, expr=expr), want, repr(obs)))
         # arithmetic / comparison use the typed value
-        for probe, expr in (('plus1', f'{path} + 1'), ('eq7', f'{path} = 7'),
+        for probe, expr in (('plus1', f'{path} + 1'), ('idiv2', f'{path} idiv 2'), ('eq7', f'{path} = 7'),
                             ('ltdate', f"{path} lt xs:date('2001-01-01')")):
             want = vec[probe][n - 1]
             if want['k'] == 'na':
@@ -677,6 +720,58 @@ def check_fresh(vec, slot, S, xsd, version, lib, pv, doc: Doc, fails: list, stat
                     fails.append((dict(base, probe=probe, outcome=out, api=('select' if api else 'token'),
                                        **node_features(vec, n)),
                                   dict(case0, expr=expr, api=('select' if api else 'token')), want, repr(obs)))
+    # ---- value comparisons of nodes whose values do not fit a double (exact: they use the typed value)
+    for n, probes in enumerate(vec['cmplit'], 1):
+        for K, op, holds in sorted(probes):
+            expr = f'{doc.paths[n]} {op} {lex(K)}'
+            obs = evaluate(expr, pv, proxy, ctx)
+            stats['evaluations'] += 1
+            stats['nontrivial'] += 1
+            if obs != [holds]:
+                out = f'{obs[0]}:{obs[1]}' if isinstance(obs, tuple) else 'value'
+                fails.append((dict(base, probe='cmp', op=op, rhs='literal', rhs_decimal=('.' in K), outcome=out,
+                                   **node_features(vec, n)), dict(case0, expr=expr), holds, repr(obs)))
+    for n1, n2, op, holds in sorted(vec['cmpnn']):
+        expr = f'{doc.paths[n1]} {op} {doc.paths[n2]}'
+        obs = evaluate(expr, pv, proxy, ctx)
+        stats['evaluations'] += 1
+        if obs != [holds]:
+            out = f'{obs[0]}:{obs[1]}' if isinstance(obs, tuple) else 'value'
+            fails.append((dict(base, probe='cmp', op=op, rhs='node', rhs_annot=vec['typed'][n2 - 1]['ty'], outcome=out,
+                               **node_features(vec, n1)), dict(case0, expr=expr), holds, repr(obs)))
+    # ---- ONE parsed expression applied to SEVERAL nodes: the kind test must not remember the previous node
+    kids = [n for n, nd in enumerate(vec['f'], 1) if nd['par'] == 1 and nd['k'] in ELEM_KINDS]
+    if len(kids) > 1:
+        for q in MULTI_QUERY:
+            single = [evaluate(f'{doc.paths[n]} instance of element(*, {qn(q)})', pv, proxy, ctx) for n in kids]
+            stats['evaluations'] += len(kids)
+            if any(isinstance(o, tuple) for o in single):
+                continue            # an error of one node (reported above) would end the whole expression
+            wants = [q in vec['iof'][n - 1] for n in kids]
+            for form, expr in (('for', f'for $e in * return $e instance of element(*, {qn(q)})'),
+                               ('filter', f'*[. instance of element(*, {qn(q)})]')):
+                obs = evaluate(expr, pv, proxy, ctx)
+                stats['evaluations'] += 1
+                if isinstance(obs, tuple):
+                    fails.append((dict(base, probe='instance_of', query=q, optional=False, api='multi-' + form,
+                                       outcome=f'{obs[0]}:{obs[1]}', **node_features(vec, kids[0])),
+                                  dict(case0, expr=expr), wants, repr(obs)))
+                    continue
+                if form == 'filter':
+                    ids = {doc.key2id.get(id(x)) for x in obs}
+                    got = [n in ids for n in kids]
+                else:
+                    got = obs if len(obs) == len(kids) else None
+                if got is None:
+                    fails.append((dict(base, probe='instance_of', query=q, optional=False, api='multi-' + form,
+                                       outcome='length', **node_features(vec, kids[0])), dict(case0, expr=expr), wants, repr(obs)))
+                    continue
+                for k, (n, want, g) in enumerate(zip(kids, wants, got)):
+                    if g is not want:
+                        fails.append((dict(base, probe='instance_of', query=q, optional=False, api='multi-' + form,
+                                           outcome=('missing' if want else 'excess'), in_chain=want,
+                                           **node_features(vec, n)),
+                                      dict(case0, expr=expr, node=doc.paths[n], index=k, form=form), want, repr(g)))
     # nothing but the PSVI attributes may be added
     extra = [a.name for e in nodes.values() if getattr(e, 'node_kind', '') == 'element'
              for a in e.attributes if (id(e.value), a.name) not in doc.key2id and not a.name.startswith('{' + XSI)]
@@ -705,8 +800,8 @@ def check_untyped(vec, lib, pv, doc: Doc, fails: list, stats: dict):
             continue
         tn, nilled, tv = observe_node(node)
         stats['evaluations'] += 2
-        if tn != a['ty']:
-            fails.append((dict(base, probe='type_name', observed_type=str(tn)), dict(case0, path=doc.paths[n]), a['ty'], tn))
+        if tn != tname(a['ty']):
+            fails.append((dict(base, probe='type_name', observed_type=str(tn)), dict(case0, path=doc.paths[n]), tname(a['ty']), tn))
         if a['tv'] != NOVALUE:
             out = cmp_values(a['tv'], tv, classes)
             if out:
@@ -805,8 +900,8 @@ def replay_history(tid, trip, states, edges, init, lib, version, fails, stats):
                                    actions=[list(x) for x in prefix[s]] + [[action, list(args)]]), 'ok', repr(e)))
                 continue
             pre, post = states[s], states[d]
-            exp_ety = {n: t for n, t in post['ety'].items()}
-            exp_aty = {m: t for m, t in post['aty'].items() if t != 'unbuilt' and vec1['f'][m - 1]['k'] != 'xx'}
+            exp_ety = {n: tname(t) for n, t in post['ety'].items()}
+            exp_aty = {m: tname(t) for m, t in post['aty'].items() if t != 'unbuilt' and vec1['f'][m - 1]['k'] != 'xx'}
             ety, aty = observe_state(ctx, doc, post, vec1)
             stats['evaluations'] += len(ety) + len(aty)
             actions = [list(x) for x in prefix[s]] + [[action, list(args)]]
@@ -844,9 +939,9 @@ def replay_history(tid, trip, states, edges, init, lib, version, fails, stats):
                         continue
                     tn, nilled, tv = observe_node(node)
                     stats['evaluations'] += 2
-                    if tn != a['ty']:
+                    if tn != tname(a['ty']):
                         fails.append((dict(feat, probe='final_type_name', source=nd['s'], annot=a['ty'], observed_type=str(tn)),
-                                      case, a['ty'], tn))
+                                      case, tname(a['ty']), tn))
                     elif a['tv'] != NOVALUE:
                         cl = classes if cur else {'untypedAtomic': classes['untypedAtomic']}
                         out = cmp_values(a['tv'], tv, cl)
@@ -1271,7 +1366,15 @@ def replay(rec: dict) -> int:
                 evaluate(case['expr'], pv, proxy, ctx)
             print('expr     :', case['expr'])
             print('observed :', repr(obs))
-            if probe == 'instance_of':
+            if probe == 'instance_of' and 'index' in case:      # one expression over all the children of the root
+                kids = [n for n, nd in enumerate(f, 1) if nd['par'] == 1 and nd['k'] in ELEM_KINDS]
+                if isinstance(obs, tuple):
+                    bad = True
+                elif case['form'] == 'filter':
+                    bad = (doc.key2id.get(id(doc.obj[kids[case['index']]])) in {doc.key2id.get(id(x)) for x in obs}) is not exp
+                else:
+                    bad = len(obs) != len(kids) or obs[case['index']] is not exp
+            elif probe in ('instance_of', 'cmp'):
                 bad = obs != [exp]
             elif probe == 'data':
                 bad = cmp_values(exp, obs, cl) is not None
